@@ -320,7 +320,8 @@ class Translator:
             if isinstance(s, ast.For):
                 it = ast.unparse(s.iter)
                 if any(k in it for k in ("resource_providers", "snapshot_decorators", "span_processors", "metric_processors",
-                                         "config.plugins", "__spans", "__callbacks", "__results", "listeners_copy")):
+                                         "config.plugins", "__spans", "__callbacks", "__results", "listeners_copy")) or \
+                        (isinstance(s.iter, (ast.List, ast.Tuple)) and stack and stack[-1].endswith("Deep.shutdown")):
                     self.plugin_loops.append(("%s: for %s in %s" % (stack[-1] if stack else "?", ast.unparse(s.target), it), body))
             # the iteration step itself: silent for a literal, a local name or an attribute chain rooted at self (a
             # generator PROPERTY of the agent has been inlined into the head above); opaque otherwise
@@ -417,6 +418,9 @@ def generate():
     for k, (name, body) in enumerate(loops):
         out.append("(* %s *)\nDefinition loop_body_%d : stmt :=\n  %s." % (name, k, body))
     out.append("Definition plugin_loop_bodies : list stmt := [%s]." % "; ".join("loop_body_%d" % k for k in range(len(loops))))
+    out.append("(* the loops of Deep.shutdown: its fixed steps (hooks, drain, stop polling) and its plugins *)")
+    out.append("Definition shutdown_loop_bodies : list stmt := [%s]." % "; ".join(
+        "loop_body_%d" % k for k, (name, _b) in enumerate(loops) if name.startswith("Deep.shutdown")))
     inert = tr.conds.get("self.__inert")
     noconf = tr.conds.get("len(self._tp_config) == 0")
     out.append("Definition cond_inert : nat := %d." % (inert or 0))
